@@ -121,6 +121,13 @@ def c17_meshes():
     l1 = tile(rlo, rhi, [[], [], [4]])
     r2lo, r2hi = refine_region((0, 0, 3), (0, 0, 4))
     M.append(Mesh('3lev', 3, (2, 2, 4), [l0, l1, tile(r2lo, r2hi, [[], [], []])]))
+    # four levels (one more than the property's stated range: level sizes are powers of the ratio, which a 3-level
+    # checkpoint cannot tell from multiples of it); the finest box sits at the far end of the domain
+    l0 = tile((0, 0, 0), (1, 1, 1), [[], [], []])
+    l1 = tile(*refine_region((1, 0, 0), (1, 0, 0)), [[], [], []])          # fine x 2..3
+    l2 = tile(*refine_region((3, 0, 0), (3, 0, 0)), [[], [], []])          # x 6..7 of 8
+    l3 = tile(*refine_region((7, 0, 0), (7, 0, 0)), [[], [], []])          # x 14..15 of 16
+    M.append(Mesh('4lev', 3, (2, 2, 2), [l0, l1, l2, l3]))
     M.append(Mesh('1lev-3box', 3, (6, 2, 2), [tile((0, 0, 0), (5, 1, 1), [[2, 4], [], []])]))
     return M
 
@@ -227,12 +234,12 @@ def cases():
 def main():
     rep = common.Report('C17')
     common.clear_replays('C17')
-    rep.rule = ('one case = one synthetic checkpoint (1-3 levels, boxes over 1-2 files with independent layouts per data subset, ghost cells 1-3, isotropic and '
+    rep.rule = ('one case = one synthetic checkpoint (1-4 levels, boxes over 1-2 files with independent layouts per data subset, ghost cells 1-3, isotropic and '
                 'anisotropic dyadic domains, with / without the optional integer header line); per case the real conversion runs for {gradp} x {reactions} x '
                 '{flooring} x species source x {default, explicit} output (every third combination in the quick tier)')
     rep.assumptions = ['payload words arbitrary (identity) except mass fractions under flooring: sum(Y) > 0 and the rescaling is a real-arithmetic identity',
                        'checkpoint header variants beyond the two the reader distinguishes, integer-valued times and g = 0 are outside']
-    rep.bounds = {'levels': '1-3', 'boxes_per_level': '1-2', 'ghost': '1-3', 'species': 2}
+    rep.bounds = {'levels': '1-4', 'boxes_per_level': '1-2', 'ghost': '1-3', 'species': 2}
     common.run_cases(rep, run_case, cases())
     from harness import k_lemmas
     k_lemmas.run_into(rep, ['k_ghost'])
